@@ -180,12 +180,16 @@ ENTRY = {"match": "match", "match_presorted": "match(presorted=True)", "match_mu
 MACHINERY_CLAUSES = ("bad_record", "bad_representation")
 
 
+FAMILY = {"i": "int", "u": "int", "b": "int", "f": "float", "S": "str", "U": "str"}
+
+
 def rep_class(c, fn, clause, rep):
-    """the structural feature of a representation that a signature may name: element kinds only"""
+    """the structural feature of a representation that a signature may name: element families only
+    (the kind of the flag array - signed / unsigned / float / bool - where the largest flag is at stake)"""
     k1, k2 = R.kind_of(rep["t1"]), R.kind_of(rep["t2"])
     if c["kind"] == "match":
-        return k1 if k1 == k2 else "%s~%s" % (k1, k2)
-    return "flag:" + k2 if fn.startswith("rem_dup") and clause == "flag_not_largest" else "arr:" + k1
+        return FAMILY[k1] if FAMILY[k1] == FAMILY[k2] else "%s~%s" % (FAMILY[k1], FAMILY[k2])
+    return "flag:" + k2 if fn.startswith("rem_dup") and clause == "flag_not_largest" else "arr:" + FAMILY[k1]
 
 
 def judge(ctx, recs, what, batch=250000):
@@ -289,7 +293,7 @@ BOUNDS = {
         shards=dict(match=2, dedup=1), seeded=(400, 40, 60)),
     "thorough": dict(
         export=dict(MaxLen1=4, MaxLen2=4, RepLen2=2, A1Vals=set(range(2, 7)), A2Vals=set(range(1, 8)),
-                    MaxLenD=5, DVals=set(range(1, 5)), FVals={1, 2, 3}, NReps=8),
+                    MaxLenD=5, DVals=set(range(1, 5)), FVals={1, 2, 3}, NReps=6),
         mech=dict(MaxLen1=3, MaxLen2=3, RepLen2=2, A1Vals=set(range(2, 7)), A2Vals=set(range(1, 8)),
                   MaxLenD=4, DVals=set(range(1, 5)), FVals={1, 2, 3}, NReps=0),
         shards=dict(match=8, dedup=4), seeded=(4000, 150, 250)),
